@@ -636,6 +636,62 @@ def check(run):
             run.dist("solve:not-converged-in-%d" % itmax)
     run.sample({"solve_case": slines[0][:300], "impl": impl[pos - len(slines)][:300]})
 
+    # ---------------- scale covariance (C16_cg_scale_covariant): the discrete problem is linear and the stopping criterion
+    # relative, so gradients scaled by c give the surface scaled by c with the same iteration count and reported error, and
+    # (widths * s, gradients / s) gives the same surface.  Powers of two: every floating-point operation scales exactly,
+    # so the comparison is bit for bit; the residual |A x - b| / |b| is recomputed independently of the solver's err.
+    vcases = [c for c in scases if any(any(f) for _, f in c["ev"])][:(10 if quick else 80)]
+    scales = [2.0 ** -27, 2.0 ** -13, 2.0 ** 13, 2.0 ** 27]      # 7.5e-9 .. 1.3e8
+    vlines, vmeta = [], []
+    for c in vcases:
+        vlines.append(div_line(c, "SOLVE", " %d %s" % (itmax, V.hexf(tol))))
+        vmeta.append((c, "base", 1.0))
+        for sc_ in scales:
+            c2 = dict(c)
+            c2["ev"] = [(b, [x * sc_ for x in f]) for b, f in c["ev"]]
+            vlines.append(div_line(c2, "SOLVE", " %d %s" % (itmax, V.hexf(tol))))
+            vmeta.append((c2, "force", sc_))
+        for sw in (2.0 ** -10, 2.0 ** 10):
+            c3 = dict(c)
+            c3["w"] = [x * sw for x in c["w"]]
+            c3["ev"] = [(b, [x / sw for x in f]) for b, f in c["ev"]]
+            vlines.append(div_line(c3, "SOLVE", " %d %s" % (itmax, V.hexf(tol))))
+            vmeta.append((c3, "width", sw))
+    rcv, vout, ev_ = V.run_lines(unit, vlines)
+    rcw, vmod, ew_ = V.run_lines(model, vlines)
+    if len(vout) != len(vlines):
+        run.violation("unit:crash", "the C16 unit driver died in the scale stream (rc=%d): %s" % (rcv, ev_[-300:]), {"kind": "unit", "case": vlines[len(vout)] if len(vout) < len(vlines) else None})
+    else:
+        base = None
+        for (cc, kind, fac), l, so, mo in zip(vmeta, vlines, vout, vmod if len(vmod) == len(vlines) else [None] * len(vlines)):
+            p = split_bar(so)
+            it, err = int(p[0][1]), float.fromhex(p[0][2])
+            b, x = parse_floats(p[1]), parse_floats(p[2])
+            run.count(l, True)
+            run.dist("solve:scale-%s=%g" % (kind, fac))
+            if mo is not None:
+                pm = split_bar(mo)
+                if pm[0][:2] != p[0][:2] or not same(parse_floats(pm[1]), b) or not same(parse_floats(pm[2]), x):
+                    run.mismatch("solve-scaled", l, so[:400], mo[:400])
+            if kind == "base":
+                base = (it, err, b, x)
+                continue
+            bit, berr, bb, bx = base
+            xfac = fac if kind == "force" else 1.0
+            if it != bit or err != berr or not same(x, [v * xfac for v in bx]):
+                run.violation("solve:scale-covariance", "%s scaled by %g: integrate() made %d iterations (err %g) and the surface is not %g times the unscaled one "
+                              "(unscaled: %d iterations, err %g): the discrete problem is linear and the criterion relative [case: %s]"
+                              % ("forces" if kind == "force" else "widths (forces divided)", fac, it, err, xfac, bit, berr, l[:300]),
+                              {"kind": "unit", "case": l, "case2": vlines[vlines.index(l) - 1], "impl": so[:2000]})
+            bn = math.sqrt(sum(v * v for v in b))
+            if bn > 0 and finite(x) and finite(b):
+                nxp = [n if pe else n + 1 for n, pe in zip(cc["nxg"], cc["per"])]
+                Ax = [float(v) for v in lap_oracle({"nd": cc["nd"], "per": cc["per"], "nxp": nxp, "w": cc["w"]}, x)]
+                rn = math.sqrt(sum((u - v) ** 2 for u, v in zip(Ax, b)))
+                if it < itmax and not (rn <= 10 * tol * bn):
+                    run.violation("solve:residual", "integrate() stopped after %d < %d iterations with |A x - b| / |b| = %g > tol = %g (|b| = %g; reported err %g) [case: %s]"
+                                  % (it, itmax, rn / bn, tol, bn, err, l[:300]), {"kind": "unit", "case": l, "impl": so[:2000]})
+
     # ---------------- the energy b.x - x.Ax/2 (half the squared A-norm of the error, up to a constant) never increases
     # from one iteration to the next (C16_cg_error_monotone): the solver is stopped after 1, 2, 3, 5, 8, 13 iterations
     ecases = [c for c in scases if any(any(f) for _, f in c["ev"])][:(8 if quick else 60)]
@@ -826,10 +882,12 @@ def gen_e2e(r, k):
         if nd == 3:
             w = [0.5, 0.25, 1.0][(d + k) % 3]      # three different widths in every 3-D scenario
         vars_.append({"per": per, "w": w, "n": n, "lo": lo, "hi": lo + n * w})
+    # magnitude of the forces: O(1), very flat surfaces (2^-24) or large (2^12); the equations are linear
+    fscale = r.choice([1.0, 1.0, 2.0 ** -24, 2.0 ** 12])
     steps = []
     for _ in range(r.randint(8, 30)):
         z = [v["lo"] + (r.randrange(v["n"]) + r.choice([0.25, 0.5, 0.75])) * v["w"] for v in vars_]
-        e = [V.dyadic(r, -8, 8) for _ in range(nd)]
+        e = [V.dyadic(r, -8, 8) * fscale for _ in range(nd)]
         steps.append((z, e))
     ext = r.random() < 0.35          # extended-Lagrangian variables: CZAR estimator, <prefix>.czar.grad / .czar.pmf
     # files written by the outputFreq schedule during the run (no post_run) instead of at the end
@@ -844,7 +902,7 @@ def gen_e2e(r, k):
     same = r.random() < 0.4
     incl = r.random() < 0.5
     return {"id": "e2e%d" % k, "nd": nd, "vars": vars_, "steps": steps, "full": r.choice([1, 2, 4]), "apply": r.random() < 0.5,
-            "ext": ext, "freq": freq, "same": same, "incl": incl}
+            "ext": ext, "freq": freq, "same": same, "incl": incl, "fscale": fscale}
 
 
 def e2e_scenario(c):
@@ -907,6 +965,7 @@ def e2e(run, r, quick, exe=None, model=None):
         run.count("e2e:" + json.dumps(c, sort_keys=True), True)
         run.dist("e2e:nd=%d,per=%s" % (c["nd"], "".join(str(int(v["per"])) for v in c["vars"])))
         run.dist("e2e:forces=%s" % ("same-step" if c.get("same", True) else "lagged,includecv=%d" % c.get("incl", 1)))
+        run.dist("e2e:force-scale=%g" % c.get("fscale", 1.0))
         if degenerate:
             run.dist("e2e:single-point-periodic-dimension")
             if "CONFIG err=ok" in o:
@@ -1014,7 +1073,7 @@ def file_oracle(run, d, stem, gext, pext, cext, rep):
     Ax = [float(v) for v in lap_oracle({"nd": nd, "per": per, "nxp": nxp, "w": w}, pm)]
     bn = math.sqrt(sum(v * v for v in bvec))
     rn = math.sqrt(sum((u - v) ** 2 for u, v in zip(Ax, bvec)))
-    if not (rn <= 1e-4 * bn + 1e-10):
+    if not (rn <= 1e-4 * bn):      # purely relative: flat surfaces (tiny gradients) must be integrated as well as steep ones
         run.violation("e2e:poisson", "written PMF: |Laplacian(pmf) - divergence(written gradients)| = %g > 1e-4 |divergence| = %g (%d samples) [%s]"
                       % (rn, 1e-4 * bn, nsamp, stem + pext), rep)
 
